@@ -8,3 +8,4 @@ template class frg::slab_pool<wit::PolPlain, wit::Mutex>;
 template class frg::slab_pool<wit::PolFull, wit::Mutex>;
 template class frg::slab_pool<wit::PolPoisonPlain, wit::Mutex>;
 template class frg::slab_allocator<wit::PolPlain, wit::Mutex>;
+template class frg::slab_pool<wit::PolGeo, wit::Mutex>;
